@@ -39,6 +39,11 @@ class Tok(object):
         if k == "int":
             return self.ints[x]
         if k == "float":
+            # every other float token is handed over as numpy.float64 - what a refinement writes back (a subclass of float: the same
+            # value, the same repr round trip; str() must be what reaches the file, not repr())
+            if x % 2 == 1:
+                import numpy as np
+                return np.float64(self.floats[x])
             return self.floats[x]
         if k == "str_plain":
             return self.plain[x]
